@@ -176,6 +176,8 @@ func (f *Fn) prov(e ast.Expr, depth int, busy map[*types.Var]bool) string {
 			return "call:" + k + "()"
 		}
 		return "call:?()"
+	case *ast.TypeAssertExpr:
+		return f.prov(x.X, depth, busy) + ".(type)"
 	case *ast.StarExpr:
 		return f.prov(x.X, depth, busy)
 	case *ast.UnaryExpr:
